@@ -3,6 +3,7 @@ import GoCrypt.Props.C10
 import GoCrypt.Spec.Respell
 import GoCrypt.Props.Accept
 import GoCrypt.Props.C10General
+import GoCrypt.Props.TiWf
 
 /-!
 # C20 — Unmarshal accepts only respellings of what Marshal would have written
@@ -79,4 +80,11 @@ theorem respell_reflexive_examples :
 #print axioms GoCrypt.C10General.needs_intNoLength
 #print axioms GoCrypt.C10General.needs_arrayLength
 
+-- the type-info hypothesis discharged (Props/TiWf.lean): every TypeInfo that the model of getTypeInfo builds from supported field types is well-formed,
+-- so the general theorem holds for every struct type getTypeInfo accepts
+#print axioms GoCrypt.TiWf.typeInfoOf_tiWf_iff
+#print axioms GoCrypt.TiWf.typeInfoOf_tiWf
+#print axioms GoCrypt.TiWf.typeInfoOf_core
+#print axioms GoCrypt.TiWf.shipped_supported
+#print axioms GoCrypt.TiWf.accepted_respell_of_typeInfoOf
 end GoCrypt.C20
